@@ -57,4 +57,16 @@ CHECKS = {
         text="Design level: exhaustive over index vectors (distinct, duplicated, already empty, padding, >= 2^(Depth+1), 2^IdxBits-1, wrapping), presented values, paths and arbitrary padding-slot contents on all reachable trees; five mutants refuted (membership dropped, Select swapped, skip bit misplaced, one digit too many, final check dropped). Code level: as C01 with prover.DeletionMbuCircuit, including replaced InvZero hints.",
         note="As C01. The IsZero gadget is modelled by its forced value; its two-constraint relation is exercised through the R1CS solver with a lying inverse hint.",
     ),
+    "C13": dict(
+        level="model_checking",
+        technique="Server.tla model-checked for Isolation over all interleavings of 2..3 requests' handler steps (shared-state mutant refuted); TLC-simulated interleavings forced on the real handler through hook gates with each response checked against its own oracle; un-gated load traces validated by the TLC trace specification TraceServer.tla",
+        text="Every interleaving of enter/read/decode/prove/respond of concurrent valid (distinct hashes), unsatisfiable and malformed requests is enumerated at the model level. ServerGen behaviours drive the real proveHandler step by step (run-to-gate), so that e.g. request B reads its body between A's read and A's decode; every response must be the one its own request determines and a 200's proof must verify for its own input hash. Recorded un-gated load (2..16 clients, random offsets) must be a behaviour of Server.tla (TraceServer), with Isolation evaluated in every state; the thorough tier repeats the load under the Go race detector.",
+        note="Trusted: Groth16 soundness (a proof valid for hash h was computed from parameters hashing to h). Interleavings below hook granularity (inside gnark / encoding/json) are sampled by load and the race detector, not enumerated.",
+    ),
+    "C20": dict(
+        level="model_checking",
+        technique="Server.tla metrics registers (wrapper layering inc; handler; count; dec) model-checked for GaugeExact/Monotone/Lag/Conservation (bare-mux mutant refuted); gated replay compares the real /metrics with the spec's registers at every settled decision point; un-gated load with scrapes validated by TraceServer.tla with explicit lag",
+        text="At the model level every interleaving of 2..3 requests over methods GET/POST/PUT/FOO and outcomes is checked. In gated replay, with k requests held at TLC-chosen handler gates the scrape must show in-flight = k and exactly the spec's per-(method, code) totals, and after each release the totals must advance as the spec says (polling up to the settle timeout, since promhttp counts after the handler returned). Un-gated sequential and concurrent mixes are recorded with scrapes during and after load; TraceServer.tla rejects overshoot, regress, unknown labels, a failed scrape and non-convergence of the final scrape to the responses sent with a zero gauge.",
+        note="Trusted: the text exposition format of client_golang; convergence timeout 10 s. Histogram/summary collectors (duration, sizes) are not modelled.",
+    ),
 }
